@@ -30,8 +30,19 @@ func VerifC15SessionEnd() {
 	if explicit {
 		conn.script = append(conn.script, &msg.CloseProxy{ProxyName: "a"})
 	}
-	ctl.worker() // the script runs dry, the connection drops, the session ends
-	zzverif.Quiesce()
+	if zzverif.Bool("endedByARelogin") {
+		// the session does not lose its connection: a second login with the same run id replaces it
+		conn.closeCh = make(chan struct{})
+		go ctl.worker()
+		zzverif.Quiesce() // every message handled, the reader waits for more
+		successor, _ := zzControl(svr, "r1b", 0)
+		ctl.Replaced(successor)
+		zzverif.Quiesce()
+		zzverif.Reach("C15.end.replaced")
+	} else {
+		ctl.worker() // the script runs dry, the connection drops, the session ends
+		zzverif.Quiesce()
+	}
 	zzverif.Assert(len(p.closed) == n, "C15.end.one-close-notification-per-proxy")
 	for i := 0; i < n; i++ {
 		cnt := 0
